@@ -30,6 +30,17 @@ func init() {
 		c := ue.GetUESecurityCapability()
 		return "ok " + u(uint64(c.Iei)) + " " + u(uint64(c.Len)) + " " + hx(c.Buffer)
 	})
+	// uecap2 <c> <i> <c0> <i0>: the context first advertised (c0, i0); its algorithms were then changed to (c, i) (the
+	// fields are exported; key derivation and NAS protection read them on every use) and the capability is asked again:
+	// it must be the capability of (c, i)
+	registerOp("uecap2", func(a []string) string {
+		ue := tglib.NewRanUeContext("imsi-001010000000001", 1, uint8(aU64(a[2])), uint8(aU64(a[3])))
+		first := ue.GetUESecurityCapability()
+		retain(func() string { return hx(first.Buffer) }) // what was handed out must not change afterwards either
+		ue.CipheringAlg, ue.IntegrityAlg = uint8(aU64(a[0])), uint8(aU64(a[1]))
+		c := ue.GetUESecurityCapability()
+		return "ok " + u(uint64(c.Iei)) + " " + u(uint64(c.Len)) + " " + hx(c.Buffer)
+	})
 	registerOp("uesuci", func(a []string) string {
 		ue := stgutg.CreateUE(string(aHex(a[0])), int(aI64(a[2])), "k", "opc", "op")
 		m := stgutg.EncodeSuci([]byte(strings.TrimPrefix(ue.Supi, "imsi-")), int(aI64(a[1])))
@@ -71,6 +82,7 @@ func ueDomain(e *emitter) {
 	for c := 0; c < 8; c++ {
 		for g := 0; g < 8; g++ {
 			e.op("uecap", u(uint64(c)), u(uint64(g)))
+			e.op("uecap2", u(uint64(c)), u(uint64(g)), u(uint64((c+1+g)%4)), u(uint64((g+2+c)%4)))
 		}
 	}
 	for j := 0; j < 12; j++ {
